@@ -95,7 +95,7 @@ func (sc *c10Scn) row(topic string, u *c10User) (vfmem.SubRow, bool) {
 
 func (sc *c10Scn) hasP(topic string, u *c10User) bool {
 	row, ok := sc.row(topic, u)
-	return ok && (row.ModeWant&row.ModeGiven).IsPresencer()
+	return ok && (row.ModeWant & row.ModeGiven).IsPresencer()
 }
 
 // topicFor resolves a pres/info frame received by user u to the canonical topic it concerns.
@@ -199,7 +199,7 @@ func (sc *c10Scn) fold(rowsBefore map[string]bool) {
 				pOK := pNow || rowsBefore[key]
 				if f.Kind == "info" {
 					row, ok := sc.row(topic, u)
-					rOK = (ok && (row.ModeWant&row.ModeGiven).IsReader()) || rowsBefore[key+"|R"]
+					rOK = (ok && (row.ModeWant & row.ModeGiven).IsReader()) || rowsBefore[key+"|R"]
 					if f.str("topic") != "me" {
 						// receipts relayed inside the topic to attached sessions are governed by R (C09);
 						// P governs what is forwarded through 'me'
